@@ -440,3 +440,7 @@ func MustBeSet(d *spec.Design, f *spec.Attr) bool {
 	}
 	return false
 }
+
+
+// DesignPatterns returns the pattern library designs draw from.
+func DesignPatterns() []string { return designPatterns }
